@@ -56,7 +56,7 @@ def run(ck):
                 args, kw = build(dc, tc, p)
                 c = Case(test, args, kw, n=len(p), pat={}, meta={'class': f'{dc}/{tc}'},
                          label=f'{test}({p!r}; {sorted(k for k in kw if k not in ("inp", "tinp", "zinp", "config"))}; data={dc}, time={tc})')
-                return c, run_case(ck, c)
+                return c, run_case(ck, c, allow_refused=True)
             base_dc = 'ndarray' if False else 'list_none'
             cb, ob = run_one(base_dc, 'dt64')
             if ob.kind == 'raise':
@@ -72,7 +72,10 @@ def run(ck):
             ci, oi = run_one('ndarray_int', 'dt64') if False else (None, None)
             args, kw = build('ndarray_int', 'dt64', pi)
             ci = Case(test, args, kw, n=len(pi), pat={}, meta={'class': 'ndarray_int'}, label=f'{test}({pi!r}; data=ndarray_int)')
-            oi = run_case(ck, ci)
+            oi = run_case(ck, ci, allow_refused=True)
+            if oi.kind == 'refused':
+                from ..qc import concrete_envs, concretised
+                oi = run_case(ck, concretised(ci, next(concrete_envs([ci], ck.rng, 1))))
             ints = [e for e in oi.events if e['kind'] == 'int-arith']
             from ..repo import unparse
             ck.ob('C15.data', ci.label, not ints, key=f'{fn_key(ci)}:integer-array:arithmetic-in-integer-dtype',
@@ -136,7 +139,7 @@ def compare(ck, rule, test, carrier, cb, ob, cx, ox):
         dropped = [e for e in ox.events if e['kind'] == 'mask-dropped' and e.get('any_masked')]
         if sub.violations:
             first = sub.violations[0]
-            ck.violate(rule, f'{fn_key(cb)}:masked-array:' + ('mask-dropped-by-normaliser' if dropped else 'differs'),
+            ck.violate(rule, f'{fn_key(cb)}:masked-array:masked-element-evaluated',
                        f'{cx.label}: a masked element is treated as a present value '
                        f'({"np.array(masked_array) drops the mask before masked_invalid" if dropped else "flags differ"}); e.g. {first["what"][:300]}',
                        dict(examples=[v['what'] for v in sub.violations[:3]]))
